@@ -8,7 +8,7 @@
 import json, os, re, subprocess, sys, shutil, time
 HERE = os.path.dirname(os.path.dirname(os.path.abspath(__file__)))
 SEEDED = os.path.join(HERE, "seeded")
-TARGET = "/tmp/mut/target-shared"
+TARGET = os.environ.get("SEEDED_TARGET", "/tmp/mut/target-shared")
 
 
 def sh(cmd, cwd=None, env=None, timeout=3600):
